@@ -46,3 +46,7 @@ claim("C19",
       "Bounded symbolic model checking of the real bisection loop: the function under inversion is an arbitrary strictly monotone function per tensor element (fresh value per evaluation, constrained only by monotonicity against earlier evaluations and the symbolic root); the loop is unrolled by the path explorer (trip count implied by the concrete bracket/precision) and z3 proves |result - root| <= precision and result inside the bracket for increasing and decreasing functions, 0-dim to (2,2) tensors, scalar and tensor bounds, RuntimeError when max_iter is too small (and a bounded number of evaluations), ValueError for lower >= upper; European and lookback implied volatility are run with the real module price on the real bracket [0.001,1] at precision 2^-3..2^-5, with a call-site contract check that the requested precision and bracket reach bisect.",
       "bracket/precision <= 2^10; vega > 0 is an assumed lemma (C08/C09 + mean-value theorem) for the implied-volatility cases; precision 1e-6 on the real bracket is outside the claim; binaries not claimed.",
       "DESIGN.md §3 C19", SMT)
+claim("C05",
+      "Bounded symbolic model checking: expected shortfall / topp (all shapes (N,),(N,M),(N,M,K), dims None/0/1/-1, concrete p grid and fully symbolic p with the explorer forking over ceil(pN)) proved equal to minus the mean of the k worst outcomes characterised without sorting (min over k-subsets); value at risk by counting and against the order statistic; entropic risk = (1/a) log mean exp(-a x) through log product-law instances; utilities, EntropicLoss, IsoelasticLoss, OCE and every module's target subtraction; quadratic CVaR: bisect replaced by a contract stub, value proved minimal over every w up to lam*precision^2 for N=2 and first-order optimality + value formula for N<=6.",
+      "Exact reals (no overflow statement); N<=6; VaR up to 1e-9*(max-min); QCVaR decade of the spread fixed per case; open known finding F1 (small-spread samples) is reported as KNOWN-FINDING, the complementary region stays checked.",
+      "DESIGN.md §3 C05", SMT + " with an assume-guarantee contract stub for bisect")
